@@ -183,7 +183,7 @@ var baseTable = FunctionTable{
 		0,
 		false,
 	},
-	"convertToDateTime": Function{
+	"convertsToDateTime": Function{
 		impl.ConvertsToDateTime,
 		0,
 		0,
